@@ -148,12 +148,13 @@ Section AvailSteps.
       destruct (calc_borrows st user _ es) as [st1|c|] eqn:E; cbn [obind] in H; try discriminate.
       eapply calc_lends_avail; [|exact H]. eapply calc_borrows_avail; eassumption.
     - injection H as <-. exact HA.
+    - unfold hand_over in H. destr_all H; av_pos HA; try (injection H as <-; exact HA); av_fin H.
   Qed.
 
-  Lemma run_avail ops : forall st, Good cfg st -> Avail (lends st) -> Avail (lends (run cfg st ops)).
+  Lemma run_avail ops : forall st, Good cfg st -> clean cfg st ops -> Avail (lends st) -> Avail (lends (run cfg st ops)).
   Proof.
-    induction ops as [|o r IH]; intros st HG HA; [exact HA|]. cbn [run fold_left].
-    apply IH; [apply apply_op_good; exact HG|]. unfold apply_op.
+    induction ops as [|o r IH]; intros st HG Hc HA; [exact HA|]. destruct Hc as (Hk & Hc). cbn [run fold_left].
+    apply IH; [apply apply_op_good; assumption|exact Hc|]. unfold apply_op.
     destruct (step cfg st o) as [st'|c|] eqn:E; try exact HA. exact (step_avail _ _ _ HG HA E).
   Qed.
 End AvailSteps.
